@@ -53,6 +53,18 @@ def t_modattr(s: float, k: float) -> float:
     return Settings.gain * k * s
 
 
+class Membrane:
+    """attributes of the user's own that happen to be called like mathematical constants"""
+
+    tau = 8.0
+    e = 0.25
+    pi = 3.0
+
+
+def t_constnames(s: float, k: float) -> float:
+    return k * s / Membrane.tau + Membrane.e * s + Membrane.pi
+
+
 # ---- two different functions with the same module, name and qualified name (defined under a branch of a factory) ----
 def make_rate(variant: str):  # noqa: ANN201
     if variant == "linear":
